@@ -11,7 +11,7 @@ from vlib.common import *
 from vlib import build, sched, treegen, scenarios, envrun, packcheck
 from vlib.treegen import E, content_pattern
 
-SCN_QUICK = ["+q5", "a1", "+q31,a2,b2,+q31", "+Q5,+R7,C:A4", "C:A1+Q5,+R7,B1", "a2+q5", "a2+q5,+q5", "A2+Q5,b1", "01,a1+q3", "a2+q5,a2+q5", "+r20,+s20,a1", "+R20,+S20,+R20", "A1+R20,+S20,+R20,a1", "a1,+r20,+s20,+r20,b2", "F:a1+q5,a1", "D:a2,a2", "02+q3,+q3,a1"]
+SCN_QUICK = ["+q5", "a1", "+r20,+s20,a2+010", "+q31,a2,b2,+q31", "+Q5,+R7,C:A4", "C:A1+Q5,+R7,B1", "a2+q5", "a2+q5,+q5", "A2+Q5,b1", "01,a1+q3", "a2+q5,a2+q5", "+r20,+s20,a1", "+R20,+S20,+R20", "A1+R20,+S20,+R20,a1", "a1,+r20,+s20,+r20,b2", "F:a1+q5,a1", "D:a2,a2", "02+q3,+q3,a1"]
 SCN_THOROUGH = SCN_QUICK + ["a3+q9,b1,+q9", "+r20,+s20,+t20,+r20,a2", "a1,b1,a1,b1", "A1+r20,+s20,A1+r20", "a2+q5,0a2+q5".replace("0a", "a"), "F:+q5,+q5,F:+q5"]
 
 
@@ -217,6 +217,8 @@ def main():
         B = 4096
         sp1 = [E(b"m%d" % i, "file", content=content_pattern("m%d" % (i % 3), (i % 5) * B + 100 * i)) for i in range(12)]
         sp1 += [E(b"t%02d" % i, "file", content=content_pattern("t%d" % (i % 7), 1500 + i)) for i in range(14)]
+        # data blocks followed by an all-zero tail (a hole that is booked at once, before the file's data blocks that wait behind a fragment block in flight)
+        sp1 += [E(b"t%02dz" % i, "file", content=content_pattern("tz%d" % i, 2 * B) + bytes(700 + i)) for i in (1, 4, 9, 12)]
         sp1 += [E(b"z", "file", content=bytes(3 * B) + b"end"), E(b"dup", "file", content=content_pattern("m1", 1 * B + 100))]
         # identical tail ends of B-1 bytes (size = 15 mod 16, the last byte of the block buffer is not part of the data) between multi-block files
         sp1 += [E(b"m%dx" % (3 * i), "file", content=content_pattern("same-tail", B - 1)) for i in range(4)]
